@@ -10,6 +10,7 @@ to place the faults), execute (one child runs the explicit op list).
 See DESIGN.md section 5.
 """
 
+import gc
 import json
 import time
 
@@ -101,7 +102,24 @@ def _do_parse(p, rec, op, armed=None, keep=None):
         rec.begin(op.get("peer_seed", 0))
     # a temporary string object per parse, freed afterwards like a record read from a
     # stream: the next input may then live at the same address
-    text = "".join(list(op["input"]))
+    if op.get("pre") is not None:
+        # another record of the same length parsed right before and freed at once:
+        # the real input then very likely lives at the same address
+        t0 = "".join(list(op["pre"]))
+        try:
+            p.parse(t0)
+        except Exception:
+            pass
+        del t0
+        # the GSS of a parse is cyclic garbage that keeps its input alive until the
+        # collector runs; let it run now, as it would at some point in a long job
+        gc.collect()
+        text = "".join(list(op["input"]))
+        peers.SEAM.reset(armed)
+        if isinstance(rec, peers.RecoveryPeer):
+            rec.begin(op.get("peer_seed", 0))
+    else:
+        text = "".join(list(op["input"]))
     out = parse_outcome(
         p, text, with_errors=bool(rec), call_actions=op.get("mode") == "call_actions",
         keep=keep,
@@ -459,6 +477,34 @@ def gen_run(rng, tier):
         if fault:
             op["fault"] = {"seam": rng.choice(seams), "frac": rng.random(),
                            "exc": rng.choice(peers.FAULT_EXC_NAMES)}
+        elif len(op["input"]) > 1 and rng.random() < 0.15:
+            x = op["input"]
+            r2 = rng.random()
+            if r2 < 0.3:
+                k = rng.randrange(1, len(x))
+                op["pre"] = x[k:] + x[:k]  # same length, other content
+            elif r2 < 0.7:
+                # same length, same token structure, other lexemes (digits and
+                # letters shifted by one): parsed successfully if the input is
+                pre = "".join(
+                    "0123456789"[(ord(c) - 47) % 10] if c.isdigit() and c.isascii()
+                    else chr((ord(c) - 96) % 26 + 97) if "a" <= c <= "z"
+                    else chr((ord(c) - 64) % 26 + 65) if "A" <= c <= "Z" else c
+                    for c in x)
+                if pre != x:
+                    op["pre"] = pre
+            else:
+                # same length, rejected at the position of the real input's first token
+                k = len(x) - len(x.lstrip())
+                if k < len(x):
+                    op["pre"] = x[:k] + rng.choice("@#~") + x[k + 1:]
+            if op.get("pre") is not None:
+                # both records padded with trailing layout to one unusual, large size:
+                # blocks of that size are handed out again by the allocator at once,
+                # small ones are lost among thousands of freed objects
+                pad = " " * max(0, 600 + rng.randrange(64) - len(x))
+                op["input"] = x + pad
+                op["pre"] = op["pre"] + pad
         return op
 
     while len(ops) < n:
